@@ -9,7 +9,8 @@ TREE_ASSUMPTIONS = [
     "forest model (Tree/Model.v): a mailbox accepts every exit signal (a bounded Urgent queue that is full refuses it: "
     "sendExitMessage returns ErrProcessMailboxFull and nobody retries - outside the model)",
     "forest model: unregisterProcess sends its exit messages in one step; a process inside ProcessInit is treated like a "
-    "registered one; the spawner of a process whose start failed learns it by the error of Spawn (modelled as the same signal); "
+    "registered one that is in no wait set; the spawner of a process whose start failed is sent nothing (it gets the error of Spawn; "
+    "a supervisor then leaves handleAction with it - an environment terminate step read back from the run); "
     "every process eventually handles its mailbox (callbacks return)",
     "tree scenarios: the environment's choices (who ended without a fatal exit signal: killed, own error, a supervisor's own "
     "decision, failed init; which signals live processes sent) are read back from the observed run and handed to the model",
